@@ -58,6 +58,16 @@ def run_sched_property(ck, pid, oracle, pfile, nquick, nthorough, analyzer=False
     for nm in MODEL_SCHEDS:
         ck.obligation("correspondence:%s_plan == Sched.v model at binary64 (bit-exact f,r,b,L,K,D)" % nm, not mism[nm],
                       "; ".join("%s -> %s" % (json.dumps(sched_kwargs(c)), d) for c, d in mism[nm][:3]))
+    # oracle-only sweep (cheap): many more boundary configurations, no Coq evaluation
+    n_or = 8 * n
+    for _ in range(n_or):
+        cfg = sched.gen_config(ck.rng, ck.rng.choice(["small", "mid", "xovL<1", "clampLmin", "clampLmin", "bminactive", "nseg12", "tie"]))
+        fam[cfg["family"]] = fam.get(cfg["family"], 0) + 1
+        for nm in sched.SCHEDS:
+            res = sched.run_sched(nm, cfg)
+            for tag, what in oracle(nm, cfg, res):
+                oracle_fail += 1
+                ck.violation("%s: %s" % (nm, what), dict(sched_kwargs(cfg), scheduler=nm), tag="%s:%s" % (nm, tag))
     if analyzer:
         na = analyzer_plans(ck, cfgs[: max(20, n // 4)])
         ck.cov["analyzer_plan_calls"] = na
@@ -79,7 +89,7 @@ def run_sched_property(ck, pid, oracle, pfile, nquick, nthorough, analyzer=False
         "correspondence_cases": len(impls), "correspondence_bins": nbins,
         "correspondence_mismatches": sum(len(v) for v in mism.values()),
         "model_skipped_large": skipped_model,
-        "oracle_evaluations": len(cfgs) * len(sched.SCHEDS), "oracle_failures": oracle_fail,
+        "oracle_evaluations": (len(cfgs) + n_or) * len(sched.SCHEDS), "oracle_failures": oracle_fail,
         "input_distribution": fam,
         "rule": "admissible configurations from boundary families (see vp/sched.py gen_config) x 4 schedulers; "
                 "direct property oracle on the implementation's plan; lpsd/ltf/vectorized plans compared bit-exactly with the Coq model (vm_compute at PrimFloat)",
